@@ -6,19 +6,26 @@ V="$(cd "$(dirname "${BASH_SOURCE[0]}")/.." && pwd)"; export VERIF_HOME="$V"
 N=${1:-32}; K=${2:-60}
 W=/tmp/verif-work/dettest-$$; "$V/tools/build.sh" "$W" || exit 2
 cd "$W"
-for p in C03 C06 C07 C08 C12 C13 C14 C15 C16 C17 C18 C19; do
+for p in ${VERIF_DET_PROPS:-C03 C06 C07 C08 C12 C13 C14 C15 C16 C17 C18 C19}; do
   for i in $(seq 1 $N); do
-    ( GODEBUG=randautoseed=0 ./sim.test -test.run TestProp -test.cpu 1 -test.timeout 0 -verif.prop=$p -verif.budget=600s -verif.maxruns=$K -verif.det=$K -verif.worker=0 -verif.seed=${VERIF_SEED:-1} -verif.out=det-$p-$i.json >/dev/null 2>&1 ) &
+    ( VERIF_DET_DIGEST=1 GODEBUG=randautoseed=0 ./sim.test -test.run TestProp -test.cpu 1 -test.timeout 0 -verif.prop=$p -verif.budget=600s -verif.maxruns=$K -verif.det=$K -verif.worker=0 -verif.seed=${VERIF_SEED:-1} -verif.out=det-$p-$i.json >/dev/null 2>&1 ) &
     if (( i % 16 == 0 )); then wait; fi
   done; wait
   python3 - "$p" "$N" <<'PY'
 import json,sys,glob
 p,n=sys.argv[1],int(sys.argv[2])
-hs=[json.load(open(f)).get('trace_hashes') or {} for f in sorted(glob.glob(f'det-{p}-*.json'))]
+outs=[json.load(open(f)) for f in sorted(glob.glob(f'det-{p}-*.json'))]
+hs=[o.get('trace_hashes') or {} for o in outs]
 keys=set(hs[0]) if hs else set()
 for h in hs: keys&=set(h)
 bad=[k for k in keys if len({h[k] for h in hs})>1]
 print(f"{p}: {len(hs)} processes, {len(keys)} common cases, {len(bad)} diverging")
+for k in bad:
+    ds={}
+    for o in outs:
+        d=(o.get('trace_digests') or {}).get(k,'?')
+        ds[d]=ds.get(d,0)+1
+    for d,n in ds.items(): print(f"   case {k}: {n} x {d[:600]}")
 PY
 done
 rm -rf "$W"
